@@ -1,6 +1,6 @@
 """C15 convolution / correlation: delegation structure, kernel bookkeeping, buffer and range polynomials,
 boundary-option handling, guarded 2-D access -- structural rules over the instantiated AST."""
-import os, json
+import os, json, re
 from . import common as C
 from .ast import rules as R
 from .ir.poly import Poly
@@ -27,6 +27,7 @@ void inst(gray8_view_t const& a, gray8_view_t const& b, rgb8_view_t const& c, rg
   correlate_rows_fixed<gray32f_pixel_t>(a, kf, b); correlate_cols_fixed<gray32f_pixel_t>(a, kf, b); convolve_rows_fixed<gray32f_pixel_t>(a, kf, b); convolve_cols_fixed<gray32f_pixel_t>(a, kf, b);
   correlate_rows<rgb32f_pixel_t>(c, k, d, boundary_option::output_zero);
   detail::convolve_1d<gray32f_pixel_t>(a, k, b);
+  view_multiplies_scalar<gray32f_pixel_t>(a, 0.5f, b); view_multiplies_scalar<rgb32f_pixel_t>(c, 0.5f, d);
   detail::kernel_2d<float> k2(3, 1, 1); detail::convolve_2d(a, k2, b); detail::convolve_2d(c, k2, d);
 }
 '''
@@ -39,6 +40,7 @@ def run(rep):
     open(src, "w").write(DRIVER)
     d = C.astdump(src, os.path.join(wd, "c15.json"),
                   ["^boost::gil::(correlate|convolve)_(rows|cols)(_fixed)?$", "^boost::gil::detail::(correlate_rows_impl|convolve_1d|convolve_2d|convolve_2d_impl)$",
+                   "^boost::gil::(view_multiplies_scalar|correlate_pixels_n|correlate_pixels_k)$",
                    "^boost::gil::reverse_kernel$", "^boost::gil::detail::kernel_1d_adaptor::(left_size|right_size)$"])
     fns = d["functions"]
     spec = json.load(open(os.path.join(C.SPEC, "c15_convolve.json")))
@@ -257,6 +259,8 @@ def run(rep):
     rep.analysed["correlate_rows_impl_instantiations"] = n_impl
     if n_impl < 2:
         rep.fail_analysis("correlate_rows_impl instantiated %d times (expected dynamic and fixed)" % n_impl)
+    # ---- V5 arithmetic in the accumulator type
+    accumulator_rule(rep, fns)
     # ---- V4 convolve_2d_impl
     rep.rule("V4 convolve_2d_impl: source read only under 0<=r<src.height() && 0<=c<src.width(); one destination write per position")
     for f in fns:
@@ -314,3 +318,75 @@ def spec_poly(s):
 
 def poly_eq_str(g, w):
     return False
+
+
+def first_targ(full, name):
+    i = full.find(name + "<")
+    if i < 0:
+        return None
+    j = i + len(name) + 1
+    depth, k = 1, j
+    while k < len(full) and depth:
+        ch = full[k]
+        if ch == "<":
+            depth += 1
+        elif ch == ">":
+            depth -= 1
+        elif ch == "," and depth == 1:
+            break
+        k += 1
+    return full[j:k].strip()
+
+
+def accumulator_rule(rep, fns):
+    """V5: products and sums are formed in PixelAccum, and only the final assignment converts to the destination"""
+    rep.rule("V5 in view_multiplies_scalar (the 1-tap path), correlate_pixels_n and correlate_pixels_k every pixel_multiplies_scalar_t / pixel_plus_t has the "
+             "function's PixelAccum template argument as result type and the result is stored with pixel_assigns_t<PixelAccum, destination reference>")
+    seen = {}
+    for f in fns:
+        short = f["name"].split("::")[-1]
+        if short not in ("view_multiplies_scalar", "correlate_pixels_n", "correlate_pixels_k"):
+            continue
+        targs = []
+        acc = first_targ(f["full"], short)
+        if short == "correlate_pixels_k":
+            # <Size, PixelAccum, ...>
+            rest = f["full"][f["full"].find(short + "<") + len(short) + 1:]
+            acc = first_targ("X<" + rest.split(",", 1)[1], "X") if "," in rest else None
+        if not acc:
+            continue
+        uses = []
+        for x, _ in R.find(f["body"], lambda x: x.get("k") in ("Construct", "InitList") and re.search(r"pixel_(multiplies_scalar|plus|assigns)_t<", x.get("ccls", "") or "")):
+            uses.append(x.get("ccls"))
+        prob = []
+        for u in uses:
+            nm = re.search(r"(pixel_\w+_t)<", u).group(1)
+            args = []
+            inner = u[u.find(nm) + len(nm) + 1:-1]
+            depth, cur = 0, ""
+            for ch in inner:
+                if ch == "<":
+                    depth += 1
+                elif ch == ">":
+                    depth -= 1
+                if ch == "," and depth == 0:
+                    args.append(cur.strip()); cur = ""
+                else:
+                    cur += ch
+            args.append(cur.strip())
+            if nm in ("pixel_multiplies_scalar_t", "pixel_plus_t") and args[-1] != acc:
+                prob.append("%s computes in %s, not in the accumulator" % (nm, args[-1][:70]))
+            if nm == "pixel_assigns_t" and args[0] != acc:
+                prob.append("pixel_assigns_t converts from %s, not from the accumulator" % args[0][:70])
+        key = "V5:%s<%s>" % (short, re.sub(r"boost::(gil|mp11)::", "", acc)[:40])
+        if not uses:
+            continue
+        if key not in seen or (not seen[key][0] and prob):
+            seen[key] = (prob, R.fn_where(f), len(uses))
+    for key, (prob, where, n) in sorted(seen.items()):
+        rep.count("obligations:V5")
+        if prob:
+            rep.violation("V5-accumulator", key, where, {"problems": sorted(set(prob)), "problem": "coefficients and partial sums are converted to a narrower type before the arithmetic (e.g. a 0.75 kernel coefficient becomes 0 in an 8-bit destination)"})
+        else:
+            rep.ok("V5-accumulator", key, "%d functor uses, all in the accumulator type" % n)
+    rep.floor("obligations:V5", 3)
